@@ -131,6 +131,42 @@ func checkPeriod(obs []uint64, sampled bool, count, kept uint64, pct map[string]
 	return "", ""
 }
 
+const refillRing = 32768
+
+// ringRefillHistory: on a fresh histogram, period A fills the ring with M, period B is a single
+// observation (it uses the other buffer), period C fills the ring again with k kept observations of
+// L < M and the rest H > M. A slot that C does not overwrite still holds M, which sorts to rank ~k.
+func ringRefillHistory(name string, sampled bool, k, stride int) (clause, detail string) {
+	const L, M, H = 100, 500, 900
+	id := metrics.AddHistogram(name, sampled, nil)
+	a := make([]uint64, refillRing*stride)
+	for i := range a {
+		a[i] = M
+	}
+	cobs := make([]uint64, refillRing*stride)
+	for i := range cobs {
+		if i < k*stride {
+			cobs[i] = L
+		} else {
+			cobs[i] = H
+		}
+	}
+	for pi, obs := range [][]uint64{a, {M + 1}, cobs} {
+		for _, v := range obs {
+			metrics.ObserveHist(id, v)
+		}
+		s := metrics.VerifExtractHist(id)
+		st := map[string]uint64{}
+		for i, nm := range pctlNames {
+			st[nm] = s.Percentiles[i]
+		}
+		if clause, detail = checkPeriod(obs, sampled, s.Count, s.Kept, st, true); clause != "" {
+			return clause, fmt.Sprintf("period %d of (ring full of %d | one observation | %d x %d then %d): %s", pi, M, k*stride, L, H, detail)
+		}
+	}
+	return "", ""
+}
+
 func multisets(vals []uint64, size int, f func(ms []uint64)) {
 	cur := make([]uint64, 0, size)
 	var rec func(start int)
@@ -344,6 +380,38 @@ func runC18(c *rt.Ctx) {
 				c.Nontrivial(fmt.Sprintf("large|%v|%d|%d", sampled, n, rep))
 				if clause != "" {
 					c.Violation("C18 "+clause, fmt.Sprintf("sampled=%v %d patterned observations, period %d: %s", sampled, n, rep, detail), map[string]interface{}{"sampled": sampled, "n": n, "rep": rep})
+				}
+			}
+		}
+	}
+
+	// ---- a ring slot that a full period fails to overwrite keeps a value of an older period (the
+	// buffers are sorted in place and swapped, never cleared). Directed three-period histories make
+	// such a value visible at every rank the report samples (ringRefillHistory), for every k within
+	// +-2 of every sampled rank. Each history has a histogram (fresh buffers) of its own.
+	for _, sampled := range []bool{false, true} {
+		stride := 1
+		if sampled {
+			stride = 4
+		}
+		var ranks []int
+		for i := 1; i < 20; i++ {
+			ranks = append(ranks, refillRing*i/20)
+		}
+		ranks = append(ranks, refillRing*99/100, refillRing*999/1000)
+		for _, rk := range ranks {
+			item++
+			if !c.Mine(item) {
+				continue
+			}
+			for d := -2; d <= 2; d++ {
+				k := rk + d
+				clause, detail := ringRefillHistory(fmt.Sprintf("verifstale%d_%v_%d", c.Shard, sampled, k), sampled, k, stride)
+				c.Eval(1)
+				c.Distinct(fmt.Sprintf("stale|%v|%d", sampled, k))
+				c.Nontrivial(fmt.Sprintf("stale|%v|%d", sampled, k))
+				if clause != "" {
+					c.Violation("C18 "+clause+" ring-refill", fmt.Sprintf("sampled=%v: %s", sampled, detail), map[string]interface{}{"sampled": sampled, "k": k, "stride": stride})
 				}
 			}
 		}
